@@ -159,17 +159,43 @@ def check_ord_supertraits(S):
     f = fs[0]
     fw = cx.fw(f)
     facts = S.facts
-    pushes = [ev for ev in fw.events if ev.kind == 'mcall' and ev.method == 'push']
-    got = []
+    # the returned collection: its initial elements (`vec![a, ..]` / empty) and every push into it, each with its condition
+    if fw.tail is None or fw.tail['k'] != 'Path' or len(fw.tail['path']['segs']) != 1:
+        return False
+    tm = cx.gm.terms_of(fw)
+    tsc = tm.scope_of_node(fw.tail) or fw.root
+    d = tsc.lookup(fw.tail['path']['s'])
+    if d is None or d.kind != 'let' or d.init is None or d.assigns:
+        return False
     hg = cx.hg(f)
-    for ev in pushes:
-        leaves = hg.leaves(ev.args[0], ev.scope, ev.ctx, fw)
-        for lf in leaves:
+    got = []
+    init = d.init
+    items = None
+    if init['k'] == 'Macro' and init['mac']['name'].split('::')[-1] == 'vec':
+        items = init['mac'].get('args')
+        if items is None and not init['mac'].get('text', '').strip():
+            items = []
+    elif init['k'] == 'Call' and es(init['func']).split('::')[-1] in ('new', 'default') and not init['args']:
+        items = []
+    if items is None:
+        return False
+    for it in items:
+        for lf in hg.leaves(it, d.scope, d.ctx, fw):
             if lf.kind != 'tmpl':
                 return False
-            got.append((lf.tmpl.text().replace(' ', ''), [a for a in facts.atoms(ev.ctx, fw) if a[0] != 'cfg']))
+            got.append((lf.tmpl.text().replace(' ', ''), [a for a in facts.atoms(tuple(c for c in lf.ctx), fw) if a[0] != 'cfg']))
+    for ev in fw.events:
+        if ev.kind == 'mcall' and ev.method in ('push', 'insert', 'extend', 'append', 'remove', 'pop', 'clear', 'truncate', 'retain'):
+            r = strip_refs(ev.recv)
+            if r['k'] == 'Path' and r['path']['s'] == d.name and ev.scope.lookup(d.name) is d:
+                if ev.method != 'push':
+                    return False
+                for lf in hg.leaves(ev.args[0], ev.scope, ev.ctx, fw):
+                    if lf.kind != 'tmpl':
+                        return False
+                    got.append((lf.tmpl.text().replace(' ', ''), [a for a in facts.atoms(lf.ctx, fw) if a[0] != 'cfg']))
     exp = [('::core::cmp::Eq', []), ('::core::cmp::PartialOrd', [('educed', 'PartialOrd', False)])]
-    return sorted(map(str, got)) == sorted(map(str, exp)) and fw.tail is not None and es(fw.tail) == 'supertraits'
+    return sorted(map(str, got)) == sorted(map(str, exp))
 
 
 def check_types(S, T, shape, arg, ev, label):
